@@ -65,6 +65,7 @@ def run_cube(pixels, nd, st, sp, api, dtype="int16", groups=None, dask=False, nd
     from hdc.algo.ops.stats import gammastd_grp, gammastd_yxt
 
     T = len(pixels[0])
+    pixels = [[float("nan") if isinstance(v, str) else v for v in px] for px in pixels]      # replayed traces spell NaN cells "nan"
     arr = np.array(pixels, dtype=dtype).reshape(1, len(pixels), T)
     global LAST_WATCH
     LAST_WATCH = core.Watch(arr)
@@ -101,11 +102,14 @@ def cases_for(pixels, nd, st, sp, api, dtype, tag, checkvalue=True, dask=False, 
     res = []
     for pi, xs in enumerate(pixels):
         xs_t = [float(np.dtype(dtype).type(v)) for v in xs]   # the values as the kernel sees them
+        # a NaN cell (float cubes with a numeric nodata) is an invalid observation: for the specification it is in the class of
+        # negative values (not counted, not fitted, nodata in the result); the kernel sees the NaN
+        xs_t = [-1.0 if v != v else v for v in xs_t]
         fit, G, S, ok = oracle(xs_t, float(nd), st, sp)
         res.append({
             "x": [core.rat(v) for v in xs_t], "nd": core.rat(float(nd)), "ndi": int(nd), "st": st, "sp": sp,
             "inmod": bool(LAST_WATCH and LAST_WATCH.changed()), "outcome": outcome, "out": outs[pi] if outs else [], "fit": fit, "G": G, "S": S,
             "dlt": 0 if dtype != "float32" else 3, "drel": _drel(xs_t, fit, dtype), "checkvalue": bool(checkvalue and ok and _drel(xs_t, fit, dtype) != "big"),
-            "api": api, "dtype": dtype, "tag": tag, "ndmode": ndmode, "xi": list(xs), "pix": pi, "npix": len(pixels),
+            "api": api, "dtype": dtype, "tag": tag, "ndmode": ndmode, "xi": ["nan" if v != v else v for v in xs], "pix": pi, "npix": len(pixels),
         })
     return res
